@@ -4,6 +4,11 @@ import json, subprocess
 
 # id: (level, engine, technique, level text, level note, design ref)
 CHECKS = {
+ "C15": ("fault_enumeration", "faults",
+         "exhaustive enumeration of corruption operators (every truncation length, every header bit flip, every header field x adversarial encodings, text token edits) over shipped and generated grid files, decoded and queried by the real readers in supervised worker processes",
+         "Well-formed: the shipped .gsa twins agree with the library's decode of 5458.gsb / 5458_with_subgrid.gsb at every interior node; generated NTv2 trees decode to the nodes written in both byte orders and file orders (Gravsoft geometries/layouts: see C08). Damaged: for each of 9 shipped files (the 2.8 MB deformation grid on a reduced plan in the quick tier) and 7 generated ones (incl. two adversarial NTv2 trees: parent cycle through a repeated name, orphans/duplicates): every truncation length up to 4096 (thorough 65536) bytes and strided beyond, every single-bit flip in the first 1100 (NTv2) / 200 (Gravsoft) bytes (thorough 4096 / 600), every 16-byte header record x 14 adversarial encodings x both byte orders, deletion / duplication / 7 replacements of Gravsoft tokens; every decode that yields a grid is queried at 214 points (nodes, borders, margins, far outside, NaN, infinities, huge) x 3 margins. Verdict per case from the worker: Err / grid queried safely / panic / death by signal / no answer within the watchdog.",
+         "Single corruption per file (plus two hand-built two-defect NTv2 trees). Workers run with a 4 GiB address-space limit on a 2 MiB stack; a watchdog expiry (20 s, then 60 s alone) is the only place wall-clock enters a verdict.",
+         "DESIGN.md §3 C15"),
  "C08": ("exploration", "space",
          "complete enumeration of grid geometries x bands x per-cell query lattices, of all orders of overlapping grid lists, and of NTv2 tree shapes x file orders x byte orders, against a reference bilinear interpolator",
          "30 generated Gravsoft geometries (2..5 rows/cols, three spacings, two origins incl. one next to the antimeridian) x 1, 2, 3 bands x 5 text layouts, decoded by the library's reader: every cell probed at 25 in-cell positions, 1e-9 deg either side of inner edges, 0.25/0.49 cells (margin) and 0.51/2 cells (outside) off every border and corner, with and without the half-cell margin: value = harness bilinear interpolation / linear continuation of the f32 node values (1e-12 relative), within the corner range inside cells, nodes reproduced, containment as documented; all orders of all non-empty subsets of three overlapping grids x null grid on a 0.3 deg lattice: first containing grid, then first within the margin, then zero shift; six NTv2 tree shapes (single root, child, grandchild, two children, two roots, two roots + child) x all file orders x little/big endian: bilinear value of the deepest containing sub-grid; gridshift (datum: added, arcsec->rad, lon/lat order; geoid: subtracted), deformation raw (mm/yr->m/yr, ENU->XYZ, time span), deflection (slopes in arcsec) on generated grids served by a harness Context; outside-all-grids and @null/@optional behaviour.",
@@ -130,7 +135,8 @@ def main():
             {"name": "space", "path": "/verif/mc/src/engine.rs", "kind_free_text": "exhaustive mixed-radix product enumeration on 16 threads (par_range/decode)", "serves_properties": ["C01", "C05", "C06", "C07", "C08", "C10", "C11", "C13", "C14", "C16", "C19"]},
             {"name": "explore", "path": "/verif/mc/src/props", "kind_free_text": "explicit-state / program-tree exploration of the real API against reference models written in Rust", "serves_properties": ["C02", "C03", "C04", "C12", "C17", "C18"]},
             {"name": "sched", "path": "/verif/mc/src/props/c18.rs", "kind_free_text": "shuttle DfsScheduler over real threads sharing Plain contexts and the process-wide grid cache; yield points from hook H4", "serves_properties": ["C18"]},
-            {"name": "workers", "path": "/verif/mc/src/engine.rs", "kind_free_text": "worker subprocesses (2 MiB stack, 4 GiB address space, watchdog) for hang / overflow / abort detection", "serves_properties": ["C04"]},
+            {"name": "faults", "path": "/verif/mc/src/props/c15.rs", "kind_free_text": "exhaustive corruption operators over byte buffers (truncate, bit flip, field overwrite, token edit) applied inside worker processes", "serves_properties": ["C15"]},
+            {"name": "workers", "path": "/verif/mc/src/engine.rs", "kind_free_text": "worker subprocesses (2 MiB stack, 4 GiB address space, watchdog) for hang / overflow / abort detection", "serves_properties": ["C04", "C15"]},
         ],
         "checks": checks,
         "not_applicable": na,
